@@ -97,3 +97,25 @@ PROPS["C10"] = dict(
     engines=[pbt("c10_formats", libs=["rapidcheck", "snappy", "lz4"], quick=dict(cases=5000, size=100, procs=4), thorough=dict(cases=30000, size=200, procs=16))],
     min_evaluations=dict(quick=10000, thorough=200000),
 )
+
+PROPS["C13"] = dict(
+    title="Thrift metadata round-trips and is genuine compact protocol",
+    level="exploration",
+    design_ref="DESIGN.md section 8, C13",
+    level_text=("Generated FileMetaData / PageHeader values are written by carquet and (1) parsed back by carquet, (2) decoded by an independent "
+                "compact-protocol decoder into a (field id, wire type, value) tree that must equal the tree built from the model with "
+                "parquet.thrift's field ids; (3) the independent encoder serialises the same values with the protocol's freedom and with "
+                "unknown fields of every wire type injected into every struct, and carquet must parse them to the same structure. Exploration only."),
+    level_note="trusts ref/thrift_ref.hpp + ref/parquet_model.hpp as a faithful reading of the compact protocol and parquet.thrift (self-checked per case: reference decode(encode(x)) == x, else oracle_disagreement)",
+    technique="property-based testing (rapidcheck): round trip + differential against an independent Thrift compact codec, unknown-field injection",
+    rule=("case = (FileMetaData | PageHeader value as canonical reference bytes, seed for encoder freedoms and unknown fields, injection level). "
+          "Values: 0..300 schema elements, 0..17 row groups x 0..20 chunks, names empty/long/non-ASCII (no NUL), every logical type, extreme "
+          "integers, optional fields present/absent, statistics with arbitrary binary min/max, key/value metadata with absent values. "
+          "Non-trivial: a list with >= 15 elements, a field-id gap > 15, a long-form field header, or an unknown field inside a nested struct "
+          "(w2p_page: statistics / v2 / crc present). Page-header statistics content is not compared: parquet_parse_page_header has no way to "
+          "return it (presence flag only)."),
+    assumptions=["carquet models names as C strings, so generated names contain no NUL byte",
+                 "fields carquet's writer omits by its own rules (type_length <= 0, zero-length min/max, num_children == 0, scale/precision == 0, column key/value metadata, encoding_stats, is_*_exact) are compared as absent on the write path"],
+    engines=[pbt("c13_thrift", quick=dict(cases=5000, size=60, procs=4), thorough=dict(cases=30000, size=100, procs=16))],
+    min_evaluations=dict(quick=10000, thorough=200000),
+)
